@@ -520,6 +520,115 @@ def own_encode(table, states):
     return None
 
 
+def as_text(value, index_chars):
+    """a complement / rc result in any of the forms the API hands back -> plain str (index arrays decoded with the
+    moltype's published symbol order)"""
+    import numpy
+
+    if isinstance(value, str):
+        return value
+    if isinstance(value, (bytes, bytearray)):
+        return bytes(value).decode("utf8")
+    if isinstance(value, numpy.ndarray):
+        if value.dtype.kind in "US":
+            return "".join(str(c) for c in value.tolist())
+        if value.dtype.kind == "S":
+            return b"".join(value.tolist()).decode("utf8")
+        return "".join(index_chars[int(i)] for i in value.tolist())
+    if isinstance(value, (list, tuple)):
+        return "".join(str(c) for c in value)
+    return repr(value)
+
+
+def check_complement_forms(res, m, mt, impl, x, own_comp, replay, containers=True):
+    """complement / rc of x (any IUPAC symbols, gap, missing) through every call form the API offers, each compared
+    with the base-set model"""
+    import numpy
+
+    pre = f"C12/moltype/{impl}/nucleic"
+    ec = "".join(own_comp(c) for c in x)
+    erc = ec[::-1]
+    degenerate = any(c not in "ACGTU-?" for c in x)
+    if impl == "new":
+        index_chars = "".join(m.degen_gapped_alphabet)
+        forms = {"str": x, "bytes": x.encode("utf8"), "array": numpy.array([index_chars.index(c) for c in x], dtype=numpy.uint8)}
+    else:
+        index_chars = ""
+        forms = {"str": x, "list": list(x), "tuple": tuple(x)}
+
+    def dec(entry, mech, got_state, exp, sigpart, **detail):
+        st, got = got_state
+        txt = as_text(got, index_chars) if st == "ok" else None
+        if st == "exc":
+            res.evals += 1
+            res.count("op:" + entry)
+            res.witness(exc_mechanism(mech, got), entry=entry, moltype=mt, seq=x, error=repr(got)[:200], expected=exp, replay_case=replay, **detail)
+            return
+        simple(res, entry, mech, txt == exp, replay, (entry, mt, sigpart) if degenerate else None, moltype=mt, seq=x, got=txt, got_raw=repr(got)[:200], expected=exp, **detail)
+
+    for form, arg in forms.items():
+        for op, exp in (("complement", ec), ("rc", erc)):
+            mech = f"{pre}/{op}-wrong" if form == "str" else f"{pre}/{op}-wrong-in-{form}-form"
+            dec(f"moltype.{op}/{impl}/{form}", mech, attempt(lambda: getattr(m, op)(arg)), exp, len(x) % 3, form=form)
+        if form != "str" and len(x):
+            # involution in this form
+            st, got = attempt(lambda: m.rc(m.rc(arg)))
+            dec(f"moltype.rc-rc/{impl}/{form}", f"{pre}/rc-involution-broken-in-{form}-form", (st, got), x, len(x) % 3, form=form)
+    # sequence objects, read back in every form
+    st, seq = attempt(lambda: mk_seq(x, mt, impl, name="s1"))
+    if st == "exc":
+        res.evals += 1
+        res.witness(exc_mechanism(f"C12/make_seq/{impl}", seq), seq=x, moltype=mt, replay_case=replay)
+        return
+    readers = {"str": str, "array": numpy.array, "iter": lambda q: "".join(str(c) for c in q)}
+    if impl == "new":
+        readers["bytes"] = bytes
+    derived = {}
+    for op, exp in (("complement", ec), ("rc", erc)):
+        st, d = attempt(lambda: getattr(seq, op)())
+        if st == "exc":
+            dec(f"seq.{op}/{impl}", f"C12/seq.{op}/{impl}", (st, d), exp, len(x) % 3)
+            continue
+        derived[op] = d
+        for rname, reader in readers.items():
+            mech = f"C12/seq.{op}/{impl}/wrong" if rname == "str" else f"C12/seq.{op}/{impl}/wrong-when-read-as-{rname}"
+            dec(f"seq.{op}/{impl}/as-{rname}", mech, attempt(lambda: reader(d)), exp, len(x) % 3, read_as=rname)
+        st, back = attempt(lambda: getattr(d, op)())
+        for rname in ("str", "array"):
+            mech = f"C12/seq.{op}/{impl}/involution-broken" + ("" if rname == "str" else f"-when-read-as-{rname}")
+            dec(f"seq.{op}-{op}/{impl}/as-{rname}", mech, (st, back) if st == "exc" else attempt(lambda: readers[rname](back)), x, len(x) % 3, read_as=rname)
+    if not containers or not len(x):
+        return
+    # collections / alignments built from the derived sequence objects, and container-level rc
+    kinds = ["coll-new"] if impl == "new" else ["coll-old", "aln-old", "arr-old"]
+
+    def row(c, kind):
+        # Alignment.get_seq is documented to drop the gaps; get_gapped_seq is the row as aligned
+        return c.get_gapped_seq("s1") if kind in ("aln-old", "arr-old") else c.get_seq("s1")
+
+    for kind in kinds:
+        for op, exp in (("complement", ec), ("rc", erc)):
+            if op not in derived:
+                continue
+            st, c = attempt(lambda: mk_container(kind, {"s1": derived[op]}, mt))
+            entry = f"{kind}-from-{op}-seq"
+            if st == "exc":
+                dec(entry, f"C12/{kind}.from-{op}-sequence", (st, c), exp, len(x) % 3)
+                continue
+            dec(entry + "/to_dict", f"C12/{kind}.from-{op}-sequence/wrong", attempt(lambda: dict_of(c)["s1"]), exp, len(x) % 3)
+            dec(entry + "/get_seq-array", f"C12/{kind}.from-{op}-sequence/wrong-when-read-as-array", attempt(lambda: numpy.array(row(c, kind))), exp, len(x) % 3)
+            if op == "rc":
+                dec(entry + "/rc", f"C12/{kind}.from-rc-sequence/rc-does-not-restore", attempt(lambda: dict_of(c.rc())["s1"]), x, len(x) % 3)
+        st, c = attempt(lambda: mk_container(kind, {"s1": x}, mt).rc())
+        if st == "exc":
+            dec(f"{kind}.rc", f"C12/{kind}.rc", (st, c), erc, len(x) % 3)
+            continue
+        dec(f"{kind}.rc/get_seq-str", f"C12/{kind}.rc/wrong", attempt(lambda: str(row(c, kind))), erc, len(x) % 3)
+        dec(f"{kind}.rc/get_seq-array", f"C12/{kind}.rc/wrong-when-read-as-array", attempt(lambda: numpy.array(row(c, kind))), erc, len(x) % 3)
+        if impl == "new":
+            dec(f"{kind}.rc/get_seq-bytes", f"C12/{kind}.rc/wrong-when-read-as-bytes", attempt(lambda: bytes(row(c, kind))), erc, len(x) % 3)
+
+
 def check_symbols(res, mt, impl, n_random, seed):
     if impl == "old":
         from cogent3.core.moltype import get_moltype
@@ -594,6 +703,12 @@ def check_symbols(res, mt, impl, n_random, seed):
             dec("rc", st == "ok" and got == exp, s if s in degen else None, got=repr(got), expected=exp)
         whole = "".join(allsyms)
         exp = "".join(own_comp(c) for c in whole)
+        # every call form (str / bytes / index array resp. list / tuple; Sequence read back as str / bytes / array;
+        # containers built from complemented / reverse-complemented sequences) over the full degenerate alphabet
+        for sym in allsyms:
+            check_complement_forms(res, m, mt, impl, sym, own_comp, replay, containers=sym in degen)
+        check_complement_forms(res, m, mt, impl, whole, own_comp, replay)
+        check_complement_forms(res, m, mt, impl, whole[::-1] + whole, own_comp, replay)
         for op, e_ in (("complement", exp), ("rc", exp[::-1])):
             st, got = attempt(lambda: str(getattr(mk_seq(whole, mt, impl), op)()))
             dec(f"seq.{op}", st == "ok" and got == e_, None, seq=whole, got=repr(got), expected=e_)
@@ -613,6 +728,7 @@ def check_symbols(res, mt, impl, n_random, seed):
             simple(res, f"moltype.rc/{impl}", f"{pre}/rc-involution-broken", st == "ok" and got == (erc, x, x), replay, sig, moltype=mt, seq=x, got=repr(got)[:300], expected=[erc, x, x])
             st, got = attempt(lambda: (lambda q: (str(q.rc()), str(q.rc().rc()), str(q.complement().complement())))(mk_seq(x, mt, impl)))
             simple(res, f"seq.rc/{impl}", f"C12/seq.rc/{impl}/rc-involution-broken", st == "ok" and got == (erc, x, x), replay, sig, moltype=mt, seq=x, got=repr(got)[:300], expected=[erc, x, x])
+            check_complement_forms(res, m, mt, impl, x, own_comp, replay, containers=rng.random() < 0.3)
             if L and rng.random() < 0.3:
                 data = {"a": x, "b": erc}
                 for kind in ("coll-old", "coll-new", "aln-old", "arr-old"):
@@ -1618,6 +1734,9 @@ def required(counters, tier):
         "outcome:rejected", "outcome:terminal-stop-trimmed", "outcome:stop-kept", "outcome:gapped-codon-translated",
         "outcome:refused-strict-length", "outcome:selected",
         "lenmod3:0", "lenmod3:1", "lenmod3:2",
+        "op:moltype.complement/new/array", "op:moltype.complement/new/bytes", "op:moltype.rc/new/array", "op:moltype.complement/old/list",
+        "op:seq.rc/new/as-array", "op:seq.rc/new/as-bytes", "op:seq.rc/old/as-array", "op:seq.complement/new/as-array",
+        "op:coll-new-from-rc-seq/to_dict", "op:coll-old-from-rc-seq/to_dict", "op:aln-old-from-rc-seq/to_dict", "op:coll-new.rc/get_seq-array",
         "op:shared-code-invariant", "op:history-step", "history:rna-first", "history:dna-first", "history:shuffled",
         "op:seq-gapped.get_translation/old", "op:seq-gapped.get_translation/new", "op:seq-gapped.trim_stop_codon/old",
         "strings:gapped-seq/old/rna", "strings:gapped-seq/old/dna", "strings:gapped-seq/new/rna",
